@@ -340,6 +340,10 @@ func (m *Model) Apply(c Call) Result {
 			return conflict
 		}
 		if m.exists(b) {
+			if m.isDir(b) && parentOf(a) == b {
+				// the entry is moved into the directory it is already in: nothing happens
+				return ok("")
+			}
 			if m.isDir(b) {
 				return Result{Known: "C06-R22 move onto an existing directory (backends differ, neither is mv)"}
 			}
